@@ -68,7 +68,10 @@ class HashMap:
         elif isinstance(key, str):
             key = int(key, 2)
         elif isinstance(key, Address):
-            key = Builder().store_address(key).end_cell().begin_parse().load_uint(267)
+            key_slice = Builder().store_address(key).end_cell().begin_parse()
+            if key_slice.remaining_bits != 267:  # an address with anycast info is longer than an addr_std key
+                raise DictError('Key sizes must be the same.')
+            key = key_slice.load_uint(267)
         if isinstance(key, int):
             return self.set_int_key(key, value)
         else:
